@@ -103,7 +103,49 @@ def to3(g, sp, depth):
     return g.point3(sp, depth)
 
 
+class RidgeCase:
+    """a structured spherical world: one oceanic plate whose cooling model has an oblique ridge with a different spreading velocity at every ridge point"""
+    spherical = True
+    radius = 6371000
+
+    def __init__(self, rng):
+        self.rng = rng
+        lon0 = rng.choice([-170, -120, -40, 10, 95, 150]) + rng.choice([0, 0.5, 2.25])
+        lat0 = rng.choice([-30, -10, 5, 20])
+        w, h = rng.choice([20, 25, 30]), rng.choice([20, 30])
+        self.box = (lon0, lat0, w, h)
+        npts = rng.choice([2, 2, 3])
+        ridge = [[lon0 + w * (0.2 + 0.6 * j / (npts - 1)) + rng.choice([-1.5, 0, 1.25]), lat0 + h * (0.3 + 0.3 * j / (npts - 1)) + rng.choice([-1, 0, 2.5])] for j in range(npts)]
+        model = rng.choice(["half space model", "half space model", "plate model"])
+        m = {"model": model, "min depth": 0, "max depth": rng.choice([100e3, 150e3]), "top temperature": 273, "bottom temperature": rng.choice([1573, -1]),
+             "spreading velocity": [[0, [[rng.choice([0.01, 0.02, 0.04, 0.08]) for _ in ridge]]]], "ridge coordinates": [ridge]}
+        while len(set(m["spreading velocity"][0][1][0])) < 2:
+            m["spreading velocity"][0][1][0][0] = rng.choice([0.005, 0.03, 0.1])
+        self.w = {"version": "1.1", "coordinate system": {"model": "spherical", "depth method": "starting point"},
+                  "features": [{"model": "oceanic plate", "name": "o", "coordinates": [[lon0, lat0], [lon0 + w, lat0], [lon0 + w, lat0 + h], [lon0, lat0 + h]], "max depth": 250e3,
+                                "temperature models": [m]}]}
+
+    def world(self):
+        return self.w
+
+    def step(self):
+        return 0.25
+
+    def point3(self, sp, depth):
+        rr = self.radius - depth
+        lon, lat = math.radians(sp[0]), math.radians(sp[1])
+        cl = rr * math.sin(0.5 * math.pi - lat)
+        return [cl * math.cos(lon), cl * math.sin(lon), rr * math.cos(0.5 * math.pi - lat)]
+
+    def queries(self, n):
+        lon0, lat0, w, h = self.box
+        return [([lon0 + w * self.rng.uniform(0.05, 0.95), lat0 + h * self.rng.uniform(0.05, 0.95)], float(self.rng.choice([5e3, 20e3, 45e3, 80e3]))) for _ in range(n)]
+
+
 def gen_case(rng, decl, spherical, tier):
+    if spherical == "ridge":
+        g = RidgeCase(rng)
+        return g, g.world(), g.queries(budget(tier, 14, 30))
     g = WorldGen(random.Random(rng.getrandbits(64)), schema=decl, spherical=spherical, with_lines=True, with_random=False, max_features=3, with_cross=False)
     w = g.world()
     pos = g.surface_positions(w)
@@ -140,7 +182,8 @@ def oracle(seed, tier):
     dist = {}
     for wi in range(budget(tier, 36, 400)):
         spherical = wi % 2 == 0
-        g, w, qs = gen_case(rng, decl, spherical, tier)
+        # every sixth world: the structured oblique-ridge case (ages from a ridge with varying spreading velocity)
+        g, w, qs = gen_case(rng, decl, "ridge" if wi % 6 == 4 else spherical, tier)
         p0 = os.path.join(wdir, "o_%d.wb" % wi)
         json.dump(w, open(p0, "w"))
         lines = ["world a %s -" % p0]
